@@ -846,12 +846,6 @@ func (s *Subscription) Dispose() {
 			verifhook.Site("dispose.pending", s.c.CID(), s.rid)
 		}
 	}
-	var sentRefs []*Subscription
-	if verifhook.Enabled && state == stateSent {
-		for _, ref := range s.refs {
-			sentRefs = append(sentRefs, ref.sub)
-		}
-	}
 	s.state = stateDisposed
 	s.readyCallbacks = nil
 	s.eventQueue = nil
@@ -859,14 +853,6 @@ func (s *Subscription) Dispose() {
 
 	if s.resourceSub != nil {
 		s.unsubscribeRefs()
-		if verifhook.Enabled {
-			for _, rs := range sentRefs {
-				// a child that survives the disposal of a sent parent keeps the sent count it had through that parent
-				if rs.state != stateDisposed && rs.indirectsent > 0 {
-					verifhook.Site("dispose.sent", s.c.CID(), rs.rid)
-				}
-			}
-		}
 		if state != stateDeleted {
 			s.resourceSub.Unsubscribe(s)
 		}
